@@ -106,12 +106,12 @@ IdnaTable == <<
 >>
 CanonLabel(l) ==
   LET lo == Lower(l)
-      R == {i \in 1..Len(IdnaTable) : lo = IdnaTable[i].p \/ l = IdnaTable[i].u \/ l = IdnaTable[i].up}
+      R == {i \in 1..Len(IdnaTable) : lo = IdnaTable[i].p \/ l = IdnaTable[i].u \/ Upper(l) = Upper(IdnaTable[i].up)}
   IN IF R = {} THEN lo ELSE IdnaTable[MinOr0(R)].u
 HostLabels(h) == LET ls == SplitOn(h, 46) IN [i \in 1..Len(ls) |-> CanonLabel(ls[i])]
 \* can the oracle normalise this host (ASCII, or non-ASCII labels all in the table)?
 HostKnown(h) == \A l \in ToSet(SplitOn(h, 46)) :
-                  (\A i \in 1..Len(l) : IsAscii(l[i])) \/ (\E i \in 1..Len(IdnaTable) : l = IdnaTable[i].u \/ l = IdnaTable[i].up)
+                  (\A i \in 1..Len(l) : IsAscii(l[i])) \/ (\E i \in 1..Len(IdnaTable) : l = IdnaTable[i].u \/ Upper(l) = Upper(IdnaTable[i].up))
 
 DefaultPort(scheme) == IF scheme = <<104,116,116,112>> THEN 80 ELSE IF scheme = <<104,116,116,112,115>> THEN 443 ELSE 0
 EffPort(scheme, port) == IF port = <<>> \/ ~AllDigits(port) THEN DefaultPort(scheme) ELSE DecVal(port)
